@@ -184,7 +184,8 @@ class RefInst:
     def has(self, role, name):
         """cbid of ``name`` on provider ``role`` for THIS instance (instance-level callbacks may exist
         on some instances of a class only), else None."""
-        c = self.rp.names.get(role, {}).get(name)
+        # ("L0#2" is a second listener object of class L0: same callbacks, another provider)
+        c = self.rp.names.get(role.split("#")[0], {}).get(name)
         if c is None:
             return None
         only = self.rp.prog["cbs"][c].get("only_for")
@@ -195,9 +196,13 @@ class RefInst:
     def providers(self, name, include_late=True):
         roles = self.roles + (self.late if include_late else [])
         out = []
+        seen = set()
         for r in roles:
+            if r in seen:
+                continue
+            seen.add(r)
             c = self.has(r, name)
-            if c is not None and c not in out:
+            if c is not None and (c not in out or "#" in r):
                 out.append(c)
         return out
 
@@ -225,8 +230,10 @@ class RefInst:
             names.append(f"on_enter_{s['id']}")
         out = []
         for n in names:
+            prev = list(out)
             for c in self.providers(n):
-                if c not in out:
+                # (the same cbid twice in ONE name's provider list = two listener objects of one class)
+                if c not in prev:
                     out.append(c)
         return out
 
